@@ -568,7 +568,14 @@ def r9_color_to_pixel(ck, P):
         if f is None:
             raise AnalysisBroken('color_to_uint32 wrapper missing')
         got, it = bitprov.provenance(f)
-        _judge(ck, R, 'color_to_uint32 (%s)' % ('pixman.c' if name.endswith('a') else 'pixman-solid-fill.c'), got, exp32, 'color_to_uint32', '')
+        where_ = 'color_to_uint32 (%s)' % ('pixman.c' if name.endswith('a') else 'pixman-solid-fill.c')
+        arith = [x for x in f.insts() if x.op in ('mul', 'udiv', 'sdiv', 'urem', 'srem')]
+        if got is not None and len(got) == 32 and arith and any(got[i] == bitprov.TOP for i in range(32)):
+            # the narrowing is specified as a bit selection (the 8 most significant bits of each 16-bit channel); a product or quotient in it
+            # means rounding/scaling, which is a different function of the colour than the solid-image path applies
+            ck.violation(R, 'color_to_uint32', where_, '%s computes the 8-bit channels with %s instead of selecting the 8 most significant bits of each 16-bit channel: the pixel a fill stores differs from the one compositing a solid image stores for colours that are not of the replicated 0xXYXY form' % (where_, '/'.join(sorted({x.op for x in arith}))), 'pixman.c' if name.endswith('a') else 'pixman-solid-fill.c')
+            continue
+        _judge(ck, R, where_, got, exp32, 'color_to_uint32', '')
     accepted = []
     for e in rows:
         code = e['format']; nm = names.get(code, hex(code))
